@@ -51,6 +51,15 @@ type result struct {
 	hung     bool
 	inv, res int64
 	thread   int
+	delay    int // busy iterations between the invocation stamp and the call (widens overlap)
+}
+
+var sink atomic.Int64
+
+func spin(n int) {
+	for i := 0; i < n; i++ {
+		sink.Add(1)
+	}
 }
 
 // goid reads the current goroutine's id from its stack header ("goroutine 12 [running]:").
@@ -86,20 +95,45 @@ func newWorld(nfut int, outs map[int]bool) *world {
 func (w *world) log(f int, c uint64, v int) {
 	id := goid()
 	w.mu.Lock()
-	if r := w.cur[id]; r != nil {
+	r := w.cur[id]
+	if r != nil {
 		r.runs = append(r.runs, runrec{f, c, v})
 	}
 	w.mu.Unlock()
+	if r != nil && r.thread != 0 {
+		spin(200) // a callback that takes a little while: the future's mutex stays held meanwhile
+	}
 }
 
 // exec performs one API call on the current goroutine.
-func (w *world) exec(r *result) {
+func (w *world) exec(r *result) { w.execAfter(r, nil) }
+
+// spinBarrier lets n goroutines leave at (almost) the same instant, round after round.
+type spinBarrier struct {
+	n       int64
+	arrived atomic.Int64
+}
+
+func (b *spinBarrier) wait(round int64) {
+	b.arrived.Add(1)
+	for i := 0; b.arrived.Load() < b.n*round; i++ {
+		if i&0xffff == 0xffff {
+			runtime.Gosched()
+		}
+	}
+}
+
+func (w *world) execAfter(r *result, gate func()) {
 	id := goid()
 	w.mu.Lock()
 	w.cur[id] = r
 	w.mu.Unlock()
 	o := r.o
+	if gate != nil {
+		gate()
+	}
 	r.inv = w.clock.Add(1)
+	spin(r.delay)
 	switch o.kind {
 	case kAccept:
 		w.futs[o.f].ThenAccept(func(v int) { w.log(o.f, o.c, v) })
@@ -294,6 +328,7 @@ type concProgram struct {
 	outs    map[int]bool
 	prefix  []op
 	threads [][]op
+	delays  [][]int
 }
 
 // concProgramGen: compose graph restricted so that every call acquires all its mutexes before it
@@ -347,7 +382,7 @@ func concProgramGen(r *lib.Rng) concProgram {
 	if r.Chance(1, 3) {
 		cp.prefix = append(cp.prefix, randomCall(r, created, 1))
 	}
-	budget := 9 - len(cp.prefix)/2
+	budget := 7 // a non-linearizable history makes the Coq-side search visit every order: keep it small
 	for t := 0; t < nthreads; t++ {
 		n := r.Range(1, 3)
 		var ops []op
@@ -363,6 +398,11 @@ func concProgramGen(r *lib.Rng) concProgram {
 			budget--
 		}
 		cp.threads = append(cp.threads, ops)
+		ds := make([]int, len(ops))
+		for i := range ds {
+			ds[i] = r.Pick(5, 40, 150, 500)
+		}
+		cp.delays = append(cp.delays, ds)
 	}
 	return cp
 }
@@ -386,16 +426,30 @@ func runConcurrent(cp concProgram) ([]*result, bool) {
 	start := make(chan struct{})
 	var wg sync.WaitGroup
 	per := make([][]*result, len(cp.threads))
+	bar := &spinBarrier{n: int64(len(cp.threads))}
+	rounds := 0
+	for _, ops := range cp.threads {
+		if len(ops) > rounds {
+			rounds = len(ops)
+		}
+	}
 	for t, ops := range cp.threads {
 		for _, o := range ops {
-			per[t] = append(per[t], &result{o: o, thread: t + 1})
+			per[t] = append(per[t], &result{o: o, thread: t + 1, delay: cp.delays[t][len(per[t])]})
 		}
 		wg.Add(1)
 		go func(t int) {
 			defer wg.Done()
 			<-start
-			for _, r := range per[t] {
-				w.exec(r)
+			// round i: everybody's i-th call starts together (threads with fewer calls keep
+			// taking part in the barrier so that it stays balanced)
+			for i := 0; i < rounds; i++ {
+				round := int64(i + 1)
+				if i < len(per[t]) {
+					w.execAfter(per[t][i], func() { bar.wait(round) })
+				} else {
+					bar.wait(round)
+				}
 			}
 		}(t)
 	}
